@@ -1,9 +1,9 @@
 package harness
 
 import (
-	"strings"
 	"encoding/json"
 	"fmt"
+	"strings"
 	"time"
 
 	"github.com/omec-project/upf-epc/zzverif/vsimenv"
@@ -12,9 +12,9 @@ import (
 func init() {
 	Register(&PropDef{
 		ID: "C19", QuickRuns: 6400, Level: "exploration",
-		Rule: "one run = 4-20 HTTP requests to /v1/config/network-slices executed by the agent's real handler as simulated tasks (methods GET/PUT/POST/DELETE/PATCH; well-formed documents with every unit and boundary rates 0, 1, 2^63/unit +/- 1, 2^64-1; malformed JSON, incl. a complete document followed by trailing data; body readers that fail or end early, also right after the complete document; the same document posted again; clients that go away while the handler works, with a datapath answering late; concurrent requests; one run in five on the P4Runtime datapath, the document posted while the agent sets up its channel, after a switch restart, or in steady state). Oracle: status code, number of WriteHeader calls, and the slice-meter commands that reached the simulated datapath: programmed with the stated unit arithmetic iff the answer is 201, untouched on 4xx / 405. Non-trivial = at least one 201 and one non-201 answer; distinct = different sequence of (method, body class, status).",
+		Rule:   "one run = 4-20 HTTP requests to /v1/config/network-slices executed by the agent's real handler as simulated tasks (methods GET/PUT/POST/DELETE/PATCH; well-formed documents with every unit and boundary rates 0, 1, 2^63/unit +/- 1, 2^64-1; malformed JSON, incl. a complete document followed by trailing data; body readers that fail or end early, also right after the complete document; the same document posted again; clients that go away while the handler works, with a datapath answering late; concurrent requests; one run in five on the P4Runtime datapath, the document posted while the agent sets up its channel, after a switch restart, or in steady state). Oracle: status code, number of WriteHeader calls, and the slice-meter commands that reached the simulated datapath: programmed with the stated unit arithmetic iff the answer is 201, untouched on 4xx / 405. Non-trivial = at least one 201 and one non-201 answer; distinct = different sequence of (method, body class, status).",
 		Assume: []string{"the HTTP listener is replaced by the simulator; the handler, the JSON decoding and the datapath programming are real"},
-		Real: CommonReal, Simulated: CommonSim,
+		Real:   CommonReal, Simulated: CommonSim,
 		Scenario: scenarioC19,
 	})
 }
@@ -252,7 +252,6 @@ func scenarioC19(r *Run) {
 	}
 	r.CheckNoPanics("C19")
 }
-
 
 // scenarioC19UP4: the slice endpoint on the P4Runtime datapath. The document is
 // posted while the agent is still setting up its channel to the switch, after
